@@ -238,8 +238,10 @@ package fs
 // way (always-replace), creates pending ancestors, and for non-directories
 // empties the target; metadata (owner, mode, times) is applied before xattrs
 // and for directories only after the children; a non-directory is notified once.
+//@ effectdecl CopyDone()
 //@ func copier.copy
 //@   property C13 C14 C15 C16
+//@   posteffect CopyDone()
 //@   requires c != nil && c.inodes != nil
 //@   modifies c.parentDirs, c.parentDirs[*], c.inodes[*], array byte, global bufferPool
 //@   effects *
@@ -311,9 +313,10 @@ package fs
 // src and dst arguments are resolved as if their root were "/"
 //@ func rootPath
 //@   property C14
-//@   ensures root: filepath.Join("/", p) == "/" ==> result0 == root && result1 == nil
-//@   ensures follow: filepath.Join("/", p) != "/" && followLinks ==> result0 == fs.RootPath(root, filepath.Join("/", p))
-//@   ensures nofollow: filepath.Join("/", p) != "/" && !followLinks && result1 == nil ==> result0 == filepath.Join(fs.RootPath(root, filepath.Split(filepath.Join("/", p))), filepath.Split#1(filepath.Join("/", p)))
+//@   effects RootResolve
+//@   ensures root: filepath.Join("/", p) == "/" ==> result0 == root && result1 == nil && cnt(RootResolve) == old(cnt(RootResolve))
+//@   ensures follow: filepath.Join("/", p) != "/" && followLinks ==> cnt(RootResolve) == old(cnt(RootResolve)) + 1 && arg(RootResolve, 0) == root && arg(RootResolve, 1) == filepath.Join("/", p) && result0 == arg(RootResolve, 2)
+//@   ensures nofollow: filepath.Join("/", p) != "/" && !followLinks && result1 == nil ==> cnt(RootResolve) == old(cnt(RootResolve)) + 1 && arg(RootResolve, 0) == root && arg(RootResolve, 1) == filepath.Split(filepath.Join("/", p)) && result0 == filepath.Join(arg(RootResolve, 2), filepath.Split#1(filepath.Join("/", p)))
 
 //@ pred specIsWild(c byte) bool = c == '*' || c == '?' || c == '['
 //@ func containsWildcards
@@ -351,14 +354,19 @@ package fs
 //@   modifies heap
 //@   effects *
 //@   loop 1 invariant copier: c != nil && c.inodes != nil
-//@   at call MkdirAll: ensure_dst: arg0 == fs.RootPath(dstRoot, ite(filepath.Split#1(dst) != "" && filepath.Split#1(dst) != ".", filepath.Split(dst), dst)) && ite(filepath.Split#1(dst) != "" && filepath.Split#1(dst) != ".", filepath.Split(dst), dst) != ""
+//@   at call MkdirAll: ensure_dst: arg0 == arg(RootResolve, 2) && arg(RootResolve, 0) == dstRoot && arg(RootResolve, 1) == ite(filepath.Split#1(dst) != "" && filepath.Split#1(dst) != ".", filepath.Split(dst), dst) && ite(filepath.Split#1(dst) != "" && filepath.Split#1(dst) != ".", filepath.Split(dst), dst) != ""
 //@   at call newCopier: root: arg0 == dstRoot
 // every option reaches the copier unchanged
 //@   at call newCopier: options_plumbed: arg1 == ci.Chown && arg2 == ci.Utime && arg3 == ci.Mode && arg8 == ci.AlwaysReplaceExistingDestPaths && arg9 == ci.ChangeFunc && len(arg6) == len(ci.IncludePatterns) && ref(arg6) == ref(ci.IncludePatterns) && ref(arg7) == ref(ci.ExcludePatterns)
 //@   at call copier.prepareTargetDir: contents_mode: arg4 == ci.CopyDirContents
 //@   at call rootPath: follow_option: arg2 == ci.FollowLinks
 //@   at call rootPath: src_in_root: arg0 == srcRoot
-//@   at call copier.prepareTargetDir: dst_in_root: arg3 == fs.RootPath(dstRoot, filepath.Clean(dst))
+// the destination handed to the copier is the result of resolving dst inside dstRoot, and that
+// resolution is the most recent one and younger than everything copied so far in this call (an
+// earlier source may have created a symlink on the way; resolved once for all sources the path
+// went stale and a later wildcard match was written through such a link: found and repaired, F18)
+//@   at call copier.prepareTargetDir: dst_in_root: arg3 == arg(RootResolve, 2) && arg(RootResolve, 0) == dstRoot && arg(RootResolve, 1) == filepath.Clean(dst)
+//@   at call copier.prepareTargetDir: dst_resolved_after_earlier_sources: cnt(CopyDone) == old(cnt(CopyDone)) || when(CopyDone) < when(RootResolve)
 //@   at call copier.copy: start: arg3 == "" && arg5 == false
 
 // wildcard expansion: the walk callback only appends to its own result list
@@ -380,3 +388,4 @@ package fs
 //@ func ResolveWildcards
 //@   property C15
 //@   modifies array string
+//@   effects RootResolve
